@@ -189,3 +189,21 @@ Theorem C20_map2_nk_state_eq (H : list (oprec (mop (mop oop)))) :
   m2hist_ok_nk H -> forall (s1 s2 : cmap (cmap orswot)) (K : gset nat), m2reach_nk H s1 K -> m2reach_nk H s2 K -> s1 = s2.
 Proof. exact (map2_converge_nk H). Qed.
 Print Assumptions C20_map2_nk_state_eq.
+
+(** Map<K, Orswot> WITH key removes and merges, in the fragment the known findings leave: members are added under keys and keys are removed (no nested remove: T3), and every key that some key remove names is updated at most once by each actor ([km_once]: T2 needs two updates of one actor): equal knowledge gives Leibniz-equal complete states; the state is exactly map clock + live keys with their surviving witnesses +
+    surviving members + the key removes the map clock does not cover yet (proofs/MapOrswotKM.v) *)
+From Crdt Require Import model.Orswot model.Map spec.System spec.OrswotSpec spec.OrswotSystem spec.MapSpec spec.MapSystem spec.MapOrswotSpec spec.MapOrswotKM proofs.MapOrswotKM proofs.MapOrswotKMCor.
+Theorem C20_mapor_km_state_eq (H : list (oprec (mop oop))) :
+  mohist_ok_km H -> km_once H -> forall (s1 s2 : cmap orswot) (K : gset nat), moreach_km H s1 K -> moreach_km H s2 K -> s1 = s2.
+Proof. exact (mapor_converge_km H). Qed.
+Print Assumptions C20_mapor_km_state_eq.
+
+Theorem C20_mapor_km_state_is_spec (H : list (oprec (mop oop))) :
+  mohist_ok_km H -> km_once H -> forall (s : cmap orswot) (K : gset nat), moreach_km H s K ->
+  s = CMap (mspec_clock (known_ops H K))
+           (fn_map (mspec_keys (known_ops H K))
+                   (fun k => Some (MEntry (mspec_entry_clock (known_ops H K) k)
+                                          (Orswot (mspec_entry_clock (known_ops H K) k) (mo_entries (known_ops H K) k) ∅))))
+           (ospec_deferred (oabs <$> known_ops H K)).
+Proof. exact (mapor_refine_km H). Qed.
+Print Assumptions C20_mapor_km_state_is_spec.
